@@ -1,6 +1,593 @@
-import H3.Model.FrameStream
-import H3.Spec.Framing
+import H3.Lemmas.FrameStreamReader
+import H3.Lemmas.FrameLaws
+import H3.Lemmas.FrameRefSpec
 /-! # C02 — frame boundaries follow RFC 9114 §7.1 exactly, independent of chunking
-    (theorems under construction) -/
+
+Property theorems only.  Models: `H3.Frame` (`Frame::decode`, `proto/frame.rs`), `H3.FS`
+(`FrameStream::{poll_next,poll_data}`, `FrameDecoder::decode`, `BufList`, `frame.rs`/`buf.rs`/
+`stream.rs`).  Specification: `H3.Spec.Framing` (RFC 9114 §7.1/§7.2 oracle `observe`),
+`H3.Spec.FrameRef` (byte-at-a-time reference automaton `run`, the decoder laws `Laws`, the
+invariant `Inv`, reachable configurations `Reach`, the segmentation `Boundary`),
+`H3.Spec.FrameAgree` (`Agree`: automaton result vs. oracle tokens).
+
+All statements are unbounded: no bound on lengths, number of chunks or number of calls. -/
 namespace H3.Props.C02
+open H3.Varint H3.FS H3.Spec.Framing
+
+deriving instance DecidableEq for H3.FS.Out
+
+/-! ## 1. `Frame::decode` is the §7.1 segmentation with the §7.2 payload grammar -/
+
+/-- With `rfcDecode` (RFC 9000 §16) for type and length: header not complete ⇒ `Incomplete`;
+    DATA ⇒ `Data(len)` consuming the header only; payload not all there ⇒ `Incomplete`;
+    otherwise exactly `header + len` bytes are consumed for frames and for unknown types
+    (skipped in full), and the payload is classified exactly as `Spec.Framing.classify` does:
+    the same frame value, `Malformed` ⇔ `.malformed`, `UnsupportedFrame` ⇔ `.h2`,
+    SETTINGS error ⇔ `.badSettings`.  (The header size `|w| - |r2|` is `size(ty) + size(len)`
+    as encoded; the WebTransport header 0x41 is outside this specification.) -/
+theorem C02_frame_decode_is_segment (w : Varint.Bytes) (hwf : WF w) :
+    (rfcDecode w = none → ∃ m, H3.Frame.decode w = .incomplete m) ∧
+    ∀ ty r1, rfcDecode w = some (ty, r1) → ty ≠ 0x41 →
+      (rfcDecode r1 = none → ∃ m, H3.Frame.decode w = .incomplete m) ∧
+      ∀ len r2, rfcDecode r1 = some (len, r2) →
+        (w.length - r2.length = rfcLen (w.headD 0) + rfcLen (r1.headD 0) ∧
+          r2 = w.drop (w.length - r2.length)) ∧
+        (ty = 0x0 → H3.Frame.decode w = .frame (.data len) (w.length - r2.length)) ∧
+        (ty ≠ 0x0 → r2.length < len → ∃ m, H3.Frame.decode w = .incomplete m) ∧
+        (ty ≠ 0x0 → len ≤ r2.length →
+          (isKnown ty = false → H3.Frame.decode w = .unknown (w.length - r2.length + len)) ∧
+          (isKnown ty = true →
+            match classify ty (r2.take len) with
+            | .frame f => H3.Frame.decode w = .frame f (w.length - r2.length + len)
+            | .okSettings => ∃ es, H3.Frame.decode w = .frame (.settings es) (w.length - r2.length + len)
+            | .badSettings => ∃ e, H3.Frame.decode w = .error (.settings e)
+            | .malformed => H3.Frame.decode w = .error .malformed
+            | .h2 t => H3.Frame.decode w = .error (.unsupported t)
+            | _ => False)) := by
+  have hv := H3.Frame.decode_view w
+  rw [H3.Frame.hdr2_of_rfc w hwf] at hv
+  refine ⟨fun h1 => ?_, fun ty r1 h1 hty => ?_⟩
+  · rw [h1] at hv; exact ⟨_, hv⟩
+  · rw [h1] at hv
+    simp only at hv
+    refine ⟨fun h2 => ?_, fun len r2 h2 => ?_⟩
+    · rw [h2] at hv; exact ⟨_, hv⟩
+    · rw [h2] at hv
+      simp only at hv
+      obtain ⟨hh2, hle, hr2⟩ := H3.Frame.rfc_rest2 h1 h2
+      have hwt : ty ≠ H3.Gen.Consts.FRAME_WEBTRANSPORT_BI_STREAM := hty
+      unfold H3.Frame.body at hv
+      rw [if_neg hwt] at hv
+      have hsz : w.length - r2.length = rfcLen (w.headD 0) + rfcLen (r1.headD 0) := by
+        have ⟨a1, a2⟩ := H3.Frame.rfc_len h1
+        have ⟨a3, a4⟩ := H3.Frame.rfc_len h2
+        omega
+      refine ⟨⟨hsz, hr2⟩, fun hd => ?_, fun hd hs => ?_, fun hd hc => ?_⟩
+      · have hd' : ty = H3.Gen.Consts.FRAME_DATA := hd
+        rw [if_pos hd'] at hv; exact hv
+      · have hd' : ty ≠ H3.Gen.Consts.FRAME_DATA := hd
+        rw [if_neg hd', if_pos (by omega)] at hv; exact ⟨_, hv⟩
+      · have hd' : ty ≠ H3.Gen.Consts.FRAME_DATA := hd
+        rw [if_neg hd', if_neg (by omega), ← hr2] at hv
+        refine ⟨fun hk => ?_, fun hk => ?_⟩
+        · rw [hv, H3.Frame.typed_unknown ty _ _ hk]
+        · have hTA := H3.Frame.typed_classify ty (r2.take len) (w.length - r2.length + len)
+            (H3.Frame.WF_take (by rw [hr2]; exact H3.Frame.WF_drop hwf _) _) hk
+          rw [← hv] at hTA
+          revert hTA
+          cases classify ty (r2.take len) <;> simp only [H3.Frame.TypedAgrees] <;> intro hTA
+          all_goals first | exact hTA | exact hTA.1
+
+-- GOAWAY(5) followed by another byte: three bytes consumed; payload with extra bytes: malformed
+-- (D-02a, repaired); payload shorter than its varint: malformed, not Incomplete (D-02b, repaired);
+-- a grease frame is skipped in full
+example : H3.Frame.decode [0x07, 0x01, 0x05, 0xff] = .frame (.goaway 5) 3 := by decide
+example : H3.Frame.decode [0x07, 0x03, 0x01, 0x00, 0x00] = .error .malformed ∧
+    classify 0x7 [0x01, 0x00, 0x00] = .malformed := by decide
+example : H3.Frame.decode [0x07, 0x01, 0x40] = .error .malformed := by decide
+example : H3.Frame.decode [0x21, 0x02, 0xaa, 0xbb, 0x01] = .unknown 4 := by decide
+
+/-- SETTINGS payloads: the model reports an error exactly when the specification (pairs of
+    varints, no HTTP/2 identifier, no repeated defined identifier) says `badSettings`. -/
+theorem C02_settings_payload_agrees (p : Varint.Bytes) (hwf : WF p) :
+    (∃ e, H3.Frame.settingsDecode p = .error e) ↔ classify 0x4 p = .badSettings := by
+  have h := H3.Frame.settings_agrees p hwf
+  cases hd : H3.Frame.settingsDecode p with
+  | error e =>
+    rw [hd] at h
+    have : classify 4 p = .badSettings := by simpa [H3.Frame.isError] using h.symm
+    exact ⟨fun _ => this, fun _ => ⟨e, rfl⟩⟩
+  | ok es =>
+    rw [hd] at h
+    have : classify 4 p ≠ .badSettings := by
+      intro hc; rw [hc] at h; simp [H3.Frame.isError] at h
+    exact ⟨fun h' => (by obtain ⟨e, he⟩ := h'; cases he), fun hc => absurd hc this⟩
+
+example : classify 0x4 [0x06, 0x10, 0x06, 0x11] = .badSettings ∧
+    H3.Frame.isError (H3.Frame.settingsDecode [0x06, 0x10, 0x06, 0x11]) = true := by decide
+example : classify 0x4 [0x06, 0x10, 0x21, 0x11] = .okSettings := by decide
+
+/-! ## 2. The three laws of the decoder -/
+
+/-- `Frame::decode` satisfies L1 (stability, `1 ≤ n ≤ |b|`), L2 (minimality) and L3 (lower
+    bound) of DESIGN App. B.1 — the hypotheses of the generic theorems below. -/
+theorem C02_decode_laws : Laws frameDec := frameDec_laws
+
+example : frameDec.dec [0x07, 0x01, 0x05] = .frame (.goaway 5) 3 := rfl
+
+/-- L1 and L2 spelled out on `Frame.decode`: a definite answer on `b` is the answer on every
+    extension; the position `n` of a frame/skip answer satisfies `1 ≤ n ≤ |b|`, no prefix
+    shorter than `n` has a definite answer, and the prefix of length `n` has this answer. -/
+theorem C02_decode_stable_minimal (b c : Varint.Bytes)
+    (h : ∀ m, H3.Frame.decode b ≠ .incomplete m) :
+    H3.Frame.decode (b ++ c) = H3.Frame.decode b ∧
+    ∀ n, (H3.Frame.decode b = .unknown n ∨ ∃ f, H3.Frame.decode b = .frame f n) →
+      1 ≤ n ∧ n ≤ b.length ∧ (∀ k, k < n → ∃ m, H3.Frame.decode (b.take k) = .incomplete m) ∧
+      H3.Frame.decode (b.take n) = H3.Frame.decode b := by
+  have hdef : (frameDec.dec b).isIncomplete = false := (liftRes_definite_iff _).mpr h
+  refine ⟨liftRes_inj (frameDec_stable b c hdef), fun n hn => ?_⟩
+  have hpos : (frameDec.dec b).pos? = some n := by
+    show (liftRes (H3.Frame.decode b)).pos? = some n
+    rcases hn with hn | ⟨f, hn⟩ <;> rw [hn] <;> rfl
+  have ⟨h1, h2⟩ := frameDec_pos_le b n hpos
+  have ⟨h3, h4⟩ := frameDec_minimal b n hpos
+  exact ⟨h1, h2, fun k hk => (liftRes_incomplete_iff _).mp (h3 k hk), liftRes_inj h4⟩
+
+example : H3.Frame.decode ([0x07, 0x01, 0x05] ++ [0xff, 0xee]) = H3.Frame.decode [0x07, 0x01, 0x05] ∧
+    H3.Frame.decode ([0x07, 0x01, 0x05, 0xff].take 3) = H3.Frame.decode [0x07, 0x01, 0x05, 0xff] := by
+  have h : ∀ b, H3.Frame.decode b = .frame (.goaway 5) 3 → ∀ m, H3.Frame.decode b ≠ .incomplete m := by
+    intro b hb m hm; rw [hb] at hm; cases hm
+  exact ⟨(C02_decode_stable_minimal _ _ (h _ (by decide))).1,
+    ((C02_decode_stable_minimal [0x07, 0x01, 0x05, 0xff] [] (h _ (by decide))).2 3
+      (Or.inr ⟨.goaway 5, by decide⟩)).2.2.2⟩
+
+/-- L3 = `incomplete_is_sound`: after `Incomplete(m)` no extension shorter than `m` bytes can
+    decode — the licence for the `FrameDecoder.expected` memo. -/
+theorem C02_incomplete_is_sound (b c : Varint.Bytes) (m : Nat)
+    (h : H3.Frame.decode b = .incomplete m) (hlt : (b ++ c).length < m) :
+    ∃ m', H3.Frame.decode (b ++ c) = .incomplete m' := by
+  apply (liftRes_incomplete_iff _).mp
+  cases hd : (liftRes (H3.Frame.decode (b ++ c))).isIncomplete with
+  | true => rfl
+  | false =>
+    have := frameDec_lower b c m (by show liftRes _ = _; rw [h]; rfl) hd
+    omega
+
+example : ∃ m', H3.Frame.decode ([0x07, 0x03, 0x01] ++ [0x00]) = .incomplete m' :=
+  C02_incomplete_is_sound [0x07, 0x03, 0x01] [0x00] 5 (by decide) (by decide)
+
+/-- `Incomplete` is only ever reported for a buffer that does not yet hold a complete §7.1
+    segment (header cut off, or fewer payload bytes than the length says) — never for a
+    complete frame whose payload is too short for its fields (that is `Malformed`). -/
+theorem C02_incomplete_is_prefix (b : Varint.Bytes) (hwf : WF b) (m : Nat)
+    (h : H3.Frame.decode b = .incomplete m) :
+    rfcDecode b = none ∨ ∃ ty r1, rfcDecode b = some (ty, r1) ∧
+      (rfcDecode r1 = none ∨ ∃ len r2, rfcDecode r1 = some (len, r2) ∧
+        ty ≠ 0x0 ∧ ty ≠ 0x41 ∧ r2.length < len) := by
+  have hv := H3.Frame.decode_view b
+  rw [H3.Frame.hdr2_of_rfc b hwf] at hv
+  cases h1 : rfcDecode b with
+  | none => exact Or.inl rfl
+  | some p1 =>
+    obtain ⟨ty, r1⟩ := p1
+    refine Or.inr ⟨ty, r1, rfl, ?_⟩
+    rw [h1] at hv
+    simp only at hv
+    cases h2 : rfcDecode r1 with
+    | none => exact Or.inl rfl
+    | some p2 =>
+      obtain ⟨len, r2⟩ := p2
+      refine Or.inr ⟨len, r2, rfl, ?_⟩
+      rw [h2] at hv
+      simp only at hv
+      obtain ⟨_, hle, _⟩ := H3.Frame.rfc_rest2 h1 h2
+      have : (liftRes (H3.Frame.body ty len (b.length - r2.length) b)).isIncomplete = true := by
+        rw [← hv, h]; rfl
+      rw [body_incomplete_iff] at this
+      exact ⟨this.2.1, this.1, by omega⟩
+
+example : H3.Frame.decode [0x07, 0x03, 0x01] = .incomplete 5 := by decide
+example : H3.Frame.decode ([0x07, 0x03, 0x01] ++ [0x00]) = .incomplete 5 := by decide
+
+/-- ... and such a buffer is a *proper prefix* of a complete segment: some non-empty
+    continuation makes the decoder give a definite answer. -/
+theorem C02_incomplete_is_completable (b : Varint.Bytes) (m : Nat)
+    (h : H3.Frame.decode b = .incomplete m) :
+    ∃ c, c ≠ [] ∧ ∀ m', H3.Frame.decode (b ++ c) ≠ .incomplete m' := by
+  obtain ⟨c, hc⟩ := frameDec_completable b
+  refine ⟨c, ?_, (liftRes_definite_iff _).mp hc⟩
+  intro h0
+  subst h0
+  rw [List.append_nil] at hc
+  have : (liftRes (H3.Frame.decode b)).isIncomplete = true := by rw [h]; rfl
+  rw [show frameDec.dec b = liftRes (H3.Frame.decode b) from rfl, this] at hc
+  cases hc
+
+example : H3.Frame.decode ([0x07, 0x03, 0x01] ++ [0x00, 0x00]) = .error .malformed := by decide
+
+/-! ## 3. Chunking independence: the invariant over arbitrary call sequences -/
+
+/-- For every decoder satisfying the laws, every transport script with non-empty chunks
+    (`pend`, `fin`, `reset` anywhere) and every sequence of `poll_next`/`poll_data` calls, in
+    every reachable configuration the invariant of App. B.1 holds: the bytes of the chunks
+    taken from the script are `consumed ++ buffer`; the byte-wise reference automaton run over
+    `consumed` emits exactly the tokens handed out so far (frames as frame tokens, data
+    pieces flattened to bytes) and stands at `hdr []` / `data remaining`; the `expected` memo
+    is sound. -/
+theorem C02_chunking_independent {F E : Type} (D : Dec F E) (L : Laws D) (sc0 : List Ev)
+    (hsc : ScriptOK sc0) {toks : List (FS.Tok F E)} {s : St} {script : List Ev}
+    (h : Reach D sc0 toks s script) :
+    ∃ taken, sc0 = taken ++ script ∧ Inv D (evBytes taken) toks s := by
+  obtain ⟨taken, h1, _, h3⟩ := reach_inv D L sc0 hsc h
+  exact ⟨taken, h1, h3⟩
+
+-- a reachable configuration: DATA(2) announced, one payload byte buffered, `fin` not yet taken
+example : ∃ taken, [Ev.chunk [0x00, 0x02, 0xaa], .fin] = taken ++ [.fin] ∧
+    Inv frameDec (evBytes taken) ([] ++ Out.toks (.frame (.data 2)))
+      { buf := [[0xaa]], remaining := 2 } :=
+  C02_chunking_independent frameDec frameDec_laws _
+    (by intro b hb; simp at hb; subst hb; simp)
+    (Reach.next Reach.init (by decide +kernel :
+      pollNext frameDec {} [Ev.chunk [0x00, 0x02, 0xaa], .fin] =
+        (.frame (.data 2), { buf := [[0xaa]], remaining := 2 }, [.fin])) rfl)
+
+/-- the same for the model of `Frame::decode` -/
+theorem C02_chunking_independent_frames (sc0 : List Ev) (hsc : ScriptOK sc0)
+    {toks : List RTok} {s : St} {script : List Ev} (h : Reach frameDec sc0 toks s script) :
+    ∃ taken, sc0 = taken ++ script ∧ Inv frameDec (evBytes taken) toks s :=
+  C02_chunking_independent frameDec C02_decode_laws sc0 hsc h
+
+example : ∃ taken, [Ev.pend, .chunk [0x21, 0x01], .chunk [0xee, 0x07]] = taken ++ [] ∧
+    Inv frameDec (evBytes taken) ([] ++ Out.toks (.pending : FOut)) { buf := [[0x07]] , expected := some 2 } :=
+  C02_chunking_independent_frames _
+    (by intro b hb; simp at hb; rcases hb with rfl | rfl <;> simp)
+    (Reach.next (Reach.next Reach.init (by decide +kernel :
+        pollNext frameDec {} [Ev.pend, .chunk [0x21, 0x01], .chunk [0xee, 0x07]] =
+          (.pending, {}, [.chunk [0x21, 0x01], .chunk [0xee, 0x07]])) rfl)
+      (by decide +kernel :
+        pollNext frameDec {} [Ev.chunk [0x21, 0x01], .chunk [0xee, 0x07]] =
+          (.pending, { buf := [[0x07]], expected := some 2 }, [])) rfl)
+
+/-- The tokens handed out are a function of the bytes only: for two scripts carrying the same
+    bytes (cut differently, with different `pend`s) and any two call sequences, both token
+    sequences are prefixes of the one sequence the reference automaton emits on those bytes. -/
+theorem C02_tokens_function_of_bytes {F E : Type} (D : Dec F E) (L : Laws D)
+    (sc1 sc2 : List Ev) (h1 : ScriptOK sc1) (h2 : ScriptOK sc2) (hb : evBytes sc1 = evBytes sc2)
+    {toks1 toks2 : List (FS.Tok F E)} {s1 s2 : St} {r1 r2 : List Ev}
+    (hr1 : Reach D sc1 toks1 s1 r1) (hr2 : Reach D sc2 toks2 s2 r2) :
+    toks1 <+: (run D (.hdr []) (evBytes sc1)).2 ∧ toks2 <+: (run D (.hdr []) (evBytes sc1)).2 := by
+  obtain ⟨t1, e1, hI1⟩ := C02_chunking_independent D L sc1 h1 hr1
+  obtain ⟨t2, e2, hI2⟩ := C02_chunking_independent D L sc2 h2 hr2
+  constructor
+  · obtain ⟨more, hm⟩ := inv_toks_prefix D hI1 (evBytes r1)
+    rw [← evBytes_append, ← e1] at hm
+    exact ⟨more, hm.symm⟩
+  · obtain ⟨more, hm⟩ := inv_toks_prefix D hI2 (evBytes r2)
+    rw [← evBytes_append, ← e2, ← hb] at hm
+    exact ⟨more, hm.symm⟩
+
+/-- The same for the model's own driver `runCalls` (the one the correspondence run compares
+    with the real `FrameStream`): for two scripts with the same bytes and any two call
+    sequences, the frames and data bytes answered are prefixes of the one token sequence of
+    the reference automaton over those bytes. -/
+theorem C02_runCalls_chunking_independent (sc1 sc2 : List Ev) (h1 : ScriptOK sc1)
+    (h2 : ScriptOK sc2) (hb : evBytes sc1 = evBytes sc2) (calls1 calls2 : List Call) :
+    (runCalls {} sc1 calls1).flatMap Out.toks <+: (run frameDec (.hdr []) (evBytes sc1)).2 ∧
+    (runCalls {} sc2 calls2).flatMap Out.toks <+: (run frameDec (.hdr []) (evBytes sc1)).2 := by
+  obtain ⟨s1, r1, hr1⟩ := runCalls_reach sc1 calls1 [] {} sc1 Reach.init
+  obtain ⟨s2, r2, hr2⟩ := runCalls_reach sc2 calls2 [] {} sc2 Reach.init
+  simpa using C02_tokens_function_of_bytes frameDec C02_decode_laws sc1 sc2 h1 h2 hb hr1 hr2
+
+-- two cuttings of the same seven bytes (DATA(2) aa bb, then GOAWAY(5)); different pieces, the
+-- same frames and the same data bytes
+example : runCalls {} [.chunk [0x00, 0x02, 0xaa], .pend, .chunk [0xbb, 0x07, 0x01, 0x05], .fin]
+      [.next, .data, .data, .data, .data, .next, .next] =
+    [.frame (.data 2), .data [0xaa], .data [0xbb], .none, .none, .frame (.goaway 5), .none] := by
+  decide +kernel
+example : runCalls {} [.chunk [0x00], .chunk [0x02, 0xaa, 0xbb, 0x07], .chunk [0x01, 0x05], .fin]
+      [.next, .data, .data, .next, .next] =
+    [.frame (.data 2), .data [0xaa, 0xbb], .none, .frame (.goaway 5), .none] := by
+  decide +kernel
+example : (run frameDec (.hdr []) [0x00, 0x02, 0xaa, 0xbb, 0x07, 0x01, 0x05]).2 =
+    [.frame (.data 2), .byte 0xaa, .byte 0xbb, .frame (.goaway 5)] := by decide
+
+/-- No byte is interpreted twice or as both header and payload: in every reachable
+    configuration the consumed bytes are a concatenation of whole frames (buffers on which the
+    decoder answers with exactly their length) and DATA payload bytes, ending `remaining`
+    bytes before the end of a DATA payload — the consumed offset is a §7.1 segment boundary. -/
+theorem C02_no_resync {F E : Type} (D : Dec F E) (L : Laws D) (sc0 : List Ev)
+    (hsc : ScriptOK sc0) {toks : List (FS.Tok F E)} {s : St} {script : List Ev}
+    (h : Reach D sc0 toks s script) :
+    ∃ taken consumed, sc0 = taken ++ script ∧ evBytes taken = consumed ++ s.flat ∧
+      Boundary D consumed s.remaining := by
+  obtain ⟨taken, e, hI⟩ := C02_chunking_independent D L sc0 hsc h
+  obtain ⟨c, hs, hr⟩ := hI.split
+  exact ⟨taken, c, e, hs, boundary_of_run D L c s.remaining toks hr⟩
+
+-- after the grease frame `21 01 ee` has been skipped, 3 bytes are consumed and `07` is buffered
+example : ∃ taken consumed, [Ev.chunk [0x21, 0x01], .chunk [0xee, 0x07]] = taken ++ [] ∧
+    evBytes taken = consumed ++ [0x07] ∧ Boundary frameDec consumed 0 :=
+  C02_no_resync frameDec frameDec_laws _
+    (by intro b hb; simp at hb; rcases hb with rfl | rfl <;> simp)
+    (Reach.next Reach.init (by decide +kernel :
+        pollNext frameDec {} [Ev.chunk [0x21, 0x01], .chunk [0xee, 0x07]] =
+          (.pending, { buf := [[0x07]], expected := some 2 }, [])) rfl)
+
+/-! ## 4. Truncation is reported, and nothing waits for ever after FIN -/
+
+/-- Liveness half: once `fin` has been consumed no call answers `Pending`. -/
+theorem C02_no_pending_after_fin {F E : Type} (D : Dec F E) (L : Laws D) (sc0 : List Ev)
+    (hsc : ScriptOK sc0) {toks : List (FS.Tok F E)} {s : St} {script : List Ev}
+    (h : Reach D sc0 toks s script) (heos : s.eos = true) :
+    (pollNext D s script).1 ≠ .pending ∧ (pollData (F := F) (E := E) s script).1 ≠ .pending := by
+  obtain ⟨taken, e, hI⟩ := C02_chunking_independent D L sc0 hsc h
+  have hsc' : ScriptOK script := by rw [e] at hsc; exact scriptOK_suffix hsc
+  constructor
+  · rcases pollNext_preserves D L _ toks s script hI hsc' with ⟨_, hp⟩ | ⟨_, hp⟩
+    · rw [hp]; intro hc; cases hc
+    · revert hp
+      generalize pollNext D s script = res
+      obtain ⟨o, s', script'⟩ := res
+      rintro ⟨tk, _, htk, hout⟩ ho
+      simp only at ho
+      subst ho
+      rw [heos] at htk
+      simp only [TakenOK, if_true] at htk
+      have h1 : s'.eos = false := hout.2.2.1
+      rw [htk.2.2] at h1
+      cases h1
+  · have hp := pollData_spec D _ toks s script hI hsc'
+    revert hp
+    generalize pollData (F := F) (E := E) s script = res
+    obtain ⟨o, s', script'⟩ := res
+    rintro ⟨tk, _, htk, hout⟩ ho
+    simp only at ho
+    subst ho
+    rw [heos] at htk
+    simp only [TakenOK, if_true] at htk
+    have h1 : s'.eos = false := hout.2.2.1
+    rw [htk.2.2] at h1
+    cases h1
+
+example : (pollNext frameDec { buf := [[0x07]], eos := true } []).1 = .errEnd ∧
+    (pollData (F := H3.Frame.Frame) (E := H3.Frame.FrameErr)
+      { buf := [], eos := true, remaining := 1 } []).1 = .errEnd := by decide +kernel
+
+/-- One call after FIN when the bytes seen end inside a frame (the reference automaton over all
+    bytes seen stands in a header / non-DATA payload `hdr acc`, `acc ≠ []`, or in a DATA
+    payload): `poll_next` answers `UnexpectedEnd` or hands out a buffered frame, `poll_data`
+    (not in WebTransport raw mode) answers `UnexpectedEnd` or hands out a non-empty buffered
+    piece; never `Pending`, never a clean `None`, never another error; and every frame or
+    piece handed out shortens the buffer, so `UnexpectedEnd` comes after finitely many. -/
+theorem C02_truncation_step {F E : Type} (D : Dec F E) (L : Laws D) (seen : FS.Bytes)
+    (toks : List (FS.Tok F E)) (s : St) (script : List Ev) (hI : Inv D seen toks s)
+    (hsc : ScriptOK script) (heos : s.eos = true)
+    (htr : (∃ acc, acc ≠ [] ∧ (run D (.hdr []) seen).1 = .hdr acc) ∨
+      (∃ rem, (run D (.hdr []) seen).1 = .data rem)) :
+    (s.remaining = 0 → (pollNext D s script).1 = .errEnd ∨
+      ∃ f, (pollNext D s script).1 = .frame f ∧
+        (pollNext D s script).2.1.flat.length < s.flat.length) ∧
+    (s.remaining ≠ 0 → s.remaining ≠ USIZE_MAX →
+      (pollData (F := F) (E := E) s script).1 = .errEnd ∨
+      ∃ d, d ≠ [] ∧ (pollData (F := F) (E := E) s script).1 = .data d ∧
+        (pollData (F := F) (E := E) s script).2.1.flat.length < s.flat.length) := by
+  have hnotclean : ∀ c tk, seen = c → run D (.hdr []) c = (.hdr [], tk) → False := by
+    intro c tk hc hr
+    rw [hc, hr] at htr
+    rcases htr with ⟨acc, hne, h⟩ | ⟨rem, h⟩
+    · simp only [PSt.hdr.injEq] at h; exact hne h.symm
+    · cases h
+  constructor
+  · intro h0
+    rcases pollNext_preserves D L seen toks s script hI hsc with ⟨hn, _⟩ | ⟨_, hp⟩
+    · exact absurd h0 hn
+    · revert hp
+      generalize pollNext D s script = res
+      obtain ⟨o, s', script'⟩ := res
+      rintro ⟨tk, _, htk, hout⟩
+      rw [heos] at htk
+      simp only [TakenOK, if_true] at htk
+      obtain ⟨_, rfl, heos'⟩ := htk
+      simp only [evBytes, List.append_nil] at hout
+      cases o with
+      | errEnd => exact Or.inl rfl
+      | frame f =>
+        have hI' : Inv D (seen ++ []) (toks ++ [.frame f]) s' := by
+          rw [List.append_nil]; exact hout
+        have := inv_progress D hI hI' (by simp)
+        exact Or.inr ⟨f, rfl, by simpa using this⟩
+      | pending =>
+        have h1 : s'.eos = false := hout.2.2.1
+        rw [heos'] at h1; cases h1
+      | none =>
+        obtain ⟨hI', hfl, _, hrem⟩ := hout
+        obtain ⟨c, hs, hr⟩ := hI'.split
+        rw [hfl, List.append_nil] at hs
+        rw [hrem, PSt.ofRem_zero] at hr
+        exact (hnotclean c toks hs hr).elim
+      | errProto e =>
+        obtain ⟨c, n, hs, hr, _, _, hrE⟩ := hout
+        exfalso
+        have : run D (.hdr []) seen = (.dead, toks ++ [.errProto e]) := by
+          rw [hs, ← List.take_append_drop n s'.flat, run_append, hr, run_append, hrE, run_dead]
+          simp
+        rw [this] at htr
+        rcases htr with ⟨_, _, h⟩ | ⟨_, h⟩ <;> cases h
+      | errQuic c =>
+        have h1 : s'.eos = false := hout.2.2
+        rw [heos'] at h1; cases h1
+      | data _ => exact absurd hout id
+      | panic => exact absurd hout id
+  · intro h0 hmax
+    have hp := pollData_spec D seen toks s script hI hsc
+    revert hp
+    generalize pollData (F := F) (E := E) s script = res
+    obtain ⟨o, s', script'⟩ := res
+    rintro ⟨tk, _, htk, hout⟩
+    rw [heos] at htk
+    simp only [TakenOK, if_true] at htk
+    obtain ⟨_, rfl, heos'⟩ := htk
+    simp only [evBytes, List.append_nil] at hout
+    cases o with
+    | errEnd => exact Or.inl rfl
+    | data d =>
+      obtain ⟨hd, _, _, hI'⟩ := hout
+      have hI'' : Inv D (seen ++ []) (toks ++ d.map .byte) s' := by
+        rw [List.append_nil]; exact hI'
+      have := inv_progress D hI hI'' (by simpa using hd)
+      exact Or.inr ⟨d, hd, rfl, by simpa using this⟩
+    | pending =>
+      have h1 : s'.eos = false := hout.2.2.1
+      rw [heos'] at h1; cases h1
+    | none =>
+      rcases hout.2 with ⟨hz, _⟩ | ⟨hm, _⟩
+      · exact absurd hz h0
+      · exact absurd hm hmax
+    | errQuic c =>
+      have h1 : s.eos = false := hout.2.2
+      rw [heos] at h1; cases h1
+    | frame _ => exact absurd hout id
+    | errProto _ => exact absurd hout id
+    | panic => exact absurd hout id
+
+-- FIN consumed, bytes seen `00 02 aa`: the buffered piece first, then `UnexpectedEnd`
+example : pollData (F := H3.Frame.Frame) (E := H3.Frame.FrameErr)
+      { buf := [[0xaa], [0xbb]], eos := true, remaining := 3 } [] =
+    (.data [0xaa], { buf := [[0xbb]], eos := true, remaining := 2 }, []) ∧
+    pollData (F := H3.Frame.Frame) (E := H3.Frame.FrameErr)
+      { buf := [[0xbb]], eos := true, remaining := 2 } [] =
+    (.errEnd, { buf := [], eos := true, remaining := 2 }, []) := by decide +kernel
+
+/-- The reader loop, any decoder satisfying the laws, any script without `reset`: with `w` the
+    bytes of the script up to its first `fin` and `R = run D (hdr []) w`, the loop hands out
+    frames and data pieces (no `Pending` in between) whose tokens are those of `R`, and then
+    exactly one final answer determined by `R` and by whether the script has a `fin`:
+    `errProto e` iff `R` is dead with `e`; otherwise, with `fin`: `None` iff `R` stands at a
+    frame boundary, `UnexpectedEnd` iff it stands inside a frame (header, non-DATA payload:
+    all tokens handed out; DATA payload: all but possibly some of the last payload bytes);
+    without `fin`: `Pending`, all tokens handed out.  (`hraw` excludes WebTransport raw mode.) -/
+theorem C02_reader_is_reference {F E : Type} (D : Dec F E) (L : Laws D) (script : List Ev)
+    (hsc : ScriptOK script) (hnr : NoReset script)
+    (hraw : ∀ f, FS.Tok.frame f ∈ (run D (.hdr []) (evBytes (upToFin script))).2 →
+      (D.kind f).rem < USIZE_MAX)
+    (fuel : Nat) (hfuel : script.length + (evBytes script).length < fuel) :
+    ReaderPost (run D (.hdr []) (evBytes (upToFin script))) (hasFin script) []
+      (readerG D fuel {} script) := by
+  have := readerG_spec D L (evBytes (upToFin script)) (hasFin script) hraw fuel {} script [] []
+    (inv_init D) hsc hnr (by simp [wOf]) (by simp [finOf]) (by simpa [St.flat] using hfuel)
+  exact this
+
+example : readerG frameDec 20 {} [.chunk [0x21, 0x01], .pend, .chunk [0xee, 0x07, 0x01, 0x05]] =
+    [.frame (.goaway 5), .pending] := by decide +kernel
+
+/-- Truncation is reported: a script with `fin` (no `reset`) whose bytes end inside a frame —
+    header, non-DATA payload or DATA payload, wherever the chunk boundaries are — makes the
+    reader loop of the model end with `UnexpectedEnd` after handing out frames and data pieces
+    only: never a clean `None`, never `Pending`. -/
+theorem C02_truncation_reported (script : List Ev) (hsc : ScriptOK script) (hnr : NoReset script)
+    (hfin : hasFin script = true)
+    (hraw : ∀ f, FS.Tok.frame f ∈ (run frameDec (.hdr []) (evBytes (upToFin script))).2 →
+      (frameDec.kind f).rem < USIZE_MAX)
+    (htr : (∃ acc, acc ≠ [] ∧ (run frameDec (.hdr []) (evBytes (upToFin script))).1 = .hdr acc) ∨
+      (∃ rem, (run frameDec (.hdr []) (evBytes (upToFin script))).1 = .data rem))
+    (fuel : Nat) (hfuel : script.length + (evBytes script).length < fuel) :
+    ∃ body, readerLoop fuel {} script = body ++ [.errEnd] ∧
+      ∀ o ∈ body, (∃ f, o = .frame f) ∨ (∃ d, o = .data d) := by
+  obtain ⟨body, last, heq, hbody, hfinal⟩ :=
+    C02_reader_is_reference frameDec C02_decode_laws script hsc hnr hraw fuel hfuel
+  rw [← readerLoop_eq] at heq
+  refine ⟨body, ?_, hbody⟩
+  rw [heq]
+  congr 2
+  cases last with
+  | errEnd => rfl
+  | none =>
+    obtain ⟨_, h1, _⟩ := hfinal
+    rw [h1] at htr
+    rcases htr with ⟨acc, hne, h⟩ | ⟨_, h⟩
+    · simp only [PSt.hdr.injEq] at h; exact absurd h.symm hne
+    · cases h
+  | pending => rw [hfin] at hfinal; exact absurd hfinal.1 (by simp)
+  | errProto e =>
+    rw [hfinal.1] at htr
+    rcases htr with ⟨_, _, h⟩ | ⟨_, h⟩ <;> cases h
+  | frame _ => exact absurd hfinal id
+  | data _ => exact absurd hfinal id
+  | errQuic _ => exact absurd hfinal id
+  | panic => exact absurd hfinal id
+
+-- the hypotheses are satisfiable: DATA(2) with one payload byte, then FIN
+example : ∃ body, readerLoop 20 {} [.chunk [0x00, 0x02], .chunk [0xaa], .fin] = body ++ [.errEnd] ∧
+    ∀ o ∈ body, (∃ f, o = .frame f) ∨ (∃ d, o = .data d) := by
+  have hrun : run frameDec (.hdr []) (evBytes (upToFin [.chunk [0x00, 0x02], .chunk [0xaa], .fin])) =
+      (.data 1, [.frame (.data 2), .byte 0xaa]) := by decide
+  refine C02_truncation_reported _ (by intro b hb; simp at hb; rcases hb with rfl | rfl <;> simp)
+    (by intro c hc; simp at hc) (by decide) ?_ (Or.inr ⟨1, by rw [hrun]⟩) 20 (by decide)
+  intro f hf
+  rw [hrun] at hf
+  simp at hf
+  subst hf
+  decide
+
+-- cut inside a DATA payload exactly at a chunk boundary (D-02c, repaired); inside a header;
+-- inside a GOAWAY payload
+example : readerLoop 20 {} [.chunk [0x00, 0x02], .chunk [0xaa], .fin] =
+    [.frame (.data 2), .data [0xaa], .errEnd] := by decide +kernel
+example : readerLoop 20 {} [.chunk [0x00, 0x02, 0xaa], .fin] =
+    [.frame (.data 2), .errEnd] := by decide +kernel
+example : readerLoop 20 {} [.chunk [0x07, 0x01, 0x05, 0x40], .fin] =
+    [.frame (.goaway 5), .errEnd] := by decide +kernel
+example : readerLoop 20 {} [.chunk [0x07], .chunk [0x02, 0x40], .fin] = [.errEnd] := by
+  decide +kernel
+
+/-! ## 5. The reference automaton is the RFC oracle -/
+
+/-- For `Frame::decode`: the reference automaton over a well-formed byte string `w` and the
+    oracle `observe w ending` agree (`Agree`): the same frames in the same order, SETTINGS as
+    `okSettings`, each DATA payload byte for byte, a DATA payload cut off by the end as
+    `partialData` (FIN) / `data` (open), the same protocol error (`malformed`, `h2`,
+    `badSettings`), and the final token `none`/`truncated`/`pending` according to whether the
+    automaton stands at a frame boundary or inside a frame.  (Strings on which the oracle says
+    `outside`, the WebTransport 0x41 header, are excluded.) -/
+theorem C02_reference_is_spec (w : Varint.Bytes) (e : Ending) (hwf : WF w)
+    (hno : Spec.Framing.Tok.outside ∉ observe (w.length + 1) w e) :
+    Agree e (run frameDec (.hdr []) w).1 (run frameDec (.hdr []) w).2
+      (observe (w.length + 1) w e) :=
+  reference_is_spec w e hwf hno
+
+example : observe 8 [0x00, 0x02, 0xaa, 0xbb, 0x07, 0x01, 0x05] .fin =
+    [.frame (.data 2), .data [0xaa, 0xbb], .frame (.goaway 5), .none_] := by decide
+example : observe 5 [0x00, 0x03, 0xaa, 0xbb] .fin =
+    [.frame (.data 3), .partialData [0xaa, 0xbb], .truncated] := by decide
+
+/-- Together: for every script without `reset` carrying well-formed bytes `w` before its first
+    `fin` (any cutting into non-empty chunks, `pend` anywhere), the reader loop of the model
+    of `FrameStream` hands out frames and data pieces and one final answer that are those of
+    the reference automaton over `w` (`ReaderPost`), and the reference automaton agrees with
+    `observe w ending` (`Agree`).  Neither side of the comparison mentions the chunking. -/
+theorem C02_reader_observes_spec (script : List Ev) (hsc : ScriptOK script) (hnr : NoReset script)
+    (hwf : WF (evBytes (upToFin script)))
+    (hno : Spec.Framing.Tok.outside ∉
+      observe ((evBytes (upToFin script)).length + 1) (evBytes (upToFin script))
+        (if hasFin script then .fin else .open_))
+    (fuel : Nat) (hfuel : script.length + (evBytes script).length < fuel) :
+    ReaderPost (run frameDec (.hdr []) (evBytes (upToFin script))) (hasFin script) []
+      (readerLoop fuel {} script) ∧
+    Agree (if hasFin script then .fin else .open_)
+      (run frameDec (.hdr []) (evBytes (upToFin script))).1
+      (run frameDec (.hdr []) (evBytes (upToFin script))).2
+      (observe ((evBytes (upToFin script)).length + 1) (evBytes (upToFin script))
+        (if hasFin script then .fin else .open_)) := by
+  have hA := C02_reference_is_spec (evBytes (upToFin script)) _ hwf hno
+  refine ⟨?_, hA⟩
+  rw [readerLoop_eq]
+  exact C02_reader_is_reference frameDec C02_decode_laws script hsc hnr (agree_noraw hA) fuel hfuel
+
+-- the same bytes, three cuttings: the same frames, the same data bytes, the same ending
+example : readerLoop 40 {} [.chunk [0x00, 0x02, 0xaa, 0xbb, 0x07, 0x01, 0x05], .fin] =
+    [.frame (.data 2), .data [0xaa, 0xbb], .frame (.goaway 5), .none] := by decide +kernel
+example : readerLoop 40 {} [.chunk [0x00], .pend, .chunk [0x02, 0xaa], .chunk [0xbb, 0x07],
+      .pend, .chunk [0x01], .chunk [0x05], .fin] =
+    [.frame (.data 2), .data [0xaa], .data [0xbb], .frame (.goaway 5), .none] := by decide +kernel
+
 end H3.Props.C02
